@@ -19,6 +19,9 @@ RULE = (
     "static: removing a never-called library function leaves the instruction count unchanged.  Non-trivial case = >= 2 distinct effect "
     "traces explored."
 )
+RULE += (
+    ' Also DEADLIB (dropped code that mentions a library function) in library and merged form.'
+)
 ASSUME = [
     "reference IC10 machine M and reference executor R as in C01; R runs each library module's top-level code once, in import order, before the main file",
 ]
@@ -63,6 +66,13 @@ def build_cases(tier):
     for c in F.lib(tier):
         vv = vs + [dict(v, _merged=True) for v in vs]
         cases += common.split_lib_case(c, vv)
+    # dropped code that mentions a library function (the same mention of a main-file function is the merged form)
+    for c in F.deadlib(tier):
+        vv = vs + [dict(v, _merged=True) for v in vs]
+        if c["family"] == "DEADLIB":
+            cases.append(dict(c, variants=vv))
+        elif c["family"] == "DEADLIB-TERM":
+            cases.append(dict(c, variants=[v for v in vv if v.get("inline_functions", True)]))
     for c in cases:
         c["monitors"] = ["calls", "spbal", "region"]
     return common.prepare(cases)
